@@ -22,6 +22,11 @@ def first_value_assigned(body, eb, start, stop_at=None, maxsteps=12):
             l = pl_local(s["p"])
             if l == 0 or l in body.names:
                 return eb.rvalue(s["rv"])
+            rv = s["rv"]
+            if rv["r"] == "agg" and rv.get("ak") == "adt" and isinstance(s["p"], int):
+                return eb.rvalue(rv)
+            if rv["r"] == "use" and "k" in rv["a"] and "s" in rv["a"]["k"] and isinstance(s["p"], int):
+                return eb.rvalue(rv)
         t = body.blocks[b]["term"]
         if t["t"] == "goto":
             b = t["to"]
